@@ -729,12 +729,19 @@ impl StreamsState {
                 let Some(stream) = self.send.get_mut(&id).and_then(|s| s.as_mut()) else {
                     continue;
                 };
+                let was_pending = stream.is_pending();
                 if stream.pending.is_fully_acked() && !stream.fin_pending {
-                    // Stream data can't be acked in 0-RTT, so we must not have sent anything on
-                    // this stream
-                    continue;
+                    if matches!(stream.state, SendState::DataSent { .. }) {
+                        // A stream finished without any data: its lone FIN went out in a packet
+                        // that is now discarded, and can't have been acked in 0-RTT
+                        stream.fin_pending = true;
+                    } else {
+                        // Stream data can't be acked in 0-RTT, so we must not have sent anything
+                        // on this stream
+                        continue;
+                    }
                 }
-                if !stream.is_pending() {
+                if !was_pending {
                     self.pending.push_pending(id, stream.priority);
                 }
                 stream.pending.retransmit_all_for_0rtt();
